@@ -116,6 +116,33 @@ def w_wrap(ki: int, seed: int, thorough: bool) -> Part:
                             part.viol(exc_sig(f"tamper-raises-undeclared:{field}", exc), f"bit {bit} of octet {pos}: {exc!r}", {**case, "pos": pos, "bit": bit})
                             continue
                         part.viol(f"tampered-wrapper-accepted:{field}", f"bit {bit} of octet {pos} ({field}) flipped, still unwraps to {got.to_knx().hex()}", {**case, "pos": pos, "bit": bit}, rank=(len(plain), pos))
+        # pairs of bit flips of one short wrapper (thorough: every pair; quick: pairs within header, session id, tag, first ciphertext octet, MAC ends)
+        plain = min(frames, key=len)
+        s = make_session(key, 1, 0)
+        ref = ipsec.wrap(key, 1, (1).to_bytes(6, "big"), XKNX_SERIAL_NUMBER, MESSAGE_TAG_TUNNELLING, plain)
+        if thorough:
+            cand = list(range(len(ref) * 8))
+        else:
+            octs = [0, 2, 3, 5, 6, 7, 13, 14, 19, 20, 21, 22, len(ref) - 17, len(ref) - 16, len(ref) - 1]
+            cand = [o * 8 + b for o in octs for b in range(8)]
+        for ia, a in enumerate(cand):
+            for b in cand[ia + 1:]:
+                raw_l = bytearray(ref)
+                raw_l[a // 8] ^= 1 << (a % 8)
+                raw_l[b // 8] ^= 1 << (b % 8)
+                part.evaluations += 1
+                try:
+                    f2, rest = KNXIPFrame.from_knx(bytes(raw_l))
+                    if rest or not isinstance(f2.body, ip_secure_mod.SecureWrapper):
+                        continue   # another announced length or another service: not this wrapper any more
+                    got = s.decrypt_frame(f2)
+                except (ip_secure_mod.KNXSecureValidationError, CouldNotParseKNXIP, AssertionError):
+                    part.outcomes["pair-rejected"] += 1
+                    continue
+                except Exception as exc:  # noqa: BLE001
+                    part.viol(exc_sig("tamper-raises-undeclared:two-bits", exc), f"bits {a} and {b}: {exc!r}", {"kind": "wrap", "ki": ki, "sid": 1, "seq": 1, "frame": plain, "seed": seed, "a": a, "b": b})
+                    continue
+                part.viol("tampered-wrapper-accepted:two-bits", f"bits {a // 8}.{a % 8} and {b // 8}.{b % 8} flipped, still unwraps to {got.to_knx().hex()}", {"kind": "wrap", "ki": ki, "sid": 1, "seq": 1, "frame": plain, "seed": seed, "a": a, "b": b}, rank=(a, b))
     part.sample({"key": key, "frames": len(frames), "session_ids": [1, 65535], "sequence": [0, 1, 2**48 - 1]})
     return part
 
